@@ -775,6 +775,17 @@ def lockstep(ops, ctx, nproj=2, check_handles=True, stop_at_first=True):
             pre = copy.deepcopy(pm.h.get(op[1])) if k not in ("open", "openid", "ucache", "rmcache", "session", "plant", "drop") else None
             if k in ("dset", "ddel", "dclear", "dreset", "clear", "reset"):
                 doc_touched.add(op[1])  # even a refused document operation leaves data in the document object
+            if k in ("spassign", "update") and op[1] in rw.lazy and pre is not None:
+                # A whole assignment as the FIRST state point access replaces an empty collection, so it is
+                # exact; through a loaded handle the dependency keeps ==-equal values (finding F-4b).  Where
+                # the two differ the handle is loaded first, so that the case stays inside the recorded class.
+                want = copy.deepcopy(op[2]) if k == "spassign" else dict(copy.deepcopy(pre["sp"]), **copy.deepcopy(op[2]))
+                if tagged(dep_update(pre["sp"], want)) != tagged(want):
+                    try:
+                        rw.h[op[1]].statepoint()
+                    except Exception:  # noqa: BLE001
+                        pass
+                    rw.lazy.discard(op[1])
             real = rw.apply(op)
             obs = rw.observe()
             rec = {"op": op, "real": real}
